@@ -182,6 +182,12 @@ def tt_dimscheck(  # noqa: PLR0912
             "Negative dims aren't allowed in pyttb, see exclude_dims argument instead"
         )
 
+    if np.any(dim_array >= N):
+        assert False, (
+            f"dims must contain values in [0,self.dims) but {dim_array[dim_array >= N]} "
+            f"of {dim_array} are out of range for {N} dimensions"
+        )
+
     if len(np.unique(dim_array)) != len(dim_array):
         raise ValueError(f"Dims provided: {dim_array} contain repeated entries")
 
